@@ -74,3 +74,51 @@ theorem writeField_unsigned_array (arch : Endian) (pf : PField) (w : Nat) (xs : 
   simp only [hlen, Nat.sub_self, List.replicate_zero, List.flatten_nil, List.append_nil]
 
 end Fit
+
+namespace Fit
+
+/-- what `writeField` writes for an array of unsigned elements no longer than the profile length
+    (`none`: a nil slice): the elements, then the base type's invalid value up to the profile length -/
+theorem writeField_unsigned_short (arch : Endian) (pf : PField) (w : Nat) (xs : Option (List Nat))
+    (harr : tcArray pf.tcode = true) (hns : tcBase pf.tcode ≠ Base.string) (hnat : tcKind pf.tcode = .native)
+    (hsize : Base.size (tcBase pf.tcode) = w) (hlen : (xs.getD []).length ≤ pf.length) :
+    writeField arch pf (.sl (.u (8 * w))) (.us xs) =
+      .ok (((xs.getD []).map (arch.enc w)).flatten ++
+        (List.replicate (pf.length - (xs.getD []).length) (arch.enc w (Base.invalidNat (tcBase pf.tcode)))).flatten) := by
+  have henc : ∀ ys : List Nat, (ys.map Val.u).map (encodeScalar arch pf (.u (8 * w))) =
+      ys.map fun x => (Except.ok (arch.enc w x) : Except EncErr Bytes) := by
+    intro ys
+    rw [List.map_map]
+    apply List.map_congr_left
+    intro x _
+    simp only [Function.comp, encodeScalar, hnat, hns, ↓reduceIte, scWidth]
+    congr 2
+    omega
+  unfold writeField
+  simp only [harr, Bool.not_true, Bool.false_eq_true, ↓reduceIte, hns, hsize]
+  cases xs with
+  | none =>
+    simp only [Option.getD_none, List.length_nil, Nat.zero_min, List.take_zero, List.map_nil, concatE, Nat.sub_zero,
+      List.flatten_nil, List.nil_append]
+  | some ys =>
+    simp only [Option.getD_some, List.length_map] at hlen ⊢
+    have hmax : min ys.length pf.length = ys.length := Nat.min_eq_left hlen
+    rw [hmax]
+    have htk : (ys.map Val.u).take ys.length = ys.map Val.u := List.take_of_length_le (by simp)
+    rw [htk, henc, concatE_all_ok]
+
+/-- a short (or nil) array is written exactly as the array padded to the profile length -/
+theorem writeField_pad (arch : Endian) (pf : PField) (w : Nat) (xs : Option (List Nat))
+    (harr : tcArray pf.tcode = true) (hns : tcBase pf.tcode ≠ Base.string) (hnat : tcKind pf.tcode = .native)
+    (hsize : Base.size (tcBase pf.tcode) = w) (hlen : (xs.getD []).length ≤ pf.length) :
+    writeField arch pf (.sl (.u (8 * w))) (.us xs) =
+      writeField arch pf (.sl (.u (8 * w))) (.us (some (xs.getD [] ++
+        List.replicate (pf.length - (xs.getD []).length) (Base.invalidNat (tcBase pf.tcode))))) := by
+  rw [writeField_unsigned_short arch pf w xs harr hns hnat hsize hlen]
+  rw [writeField_unsigned_short arch pf w (some _) harr hns hnat hsize (by simp; omega)]
+  simp only [Option.getD_some, List.length_append, List.length_replicate]
+  have e : pf.length - ((xs.getD []).length + (pf.length - (xs.getD []).length)) = 0 := by omega
+  rw [e]
+  simp [List.map_append, List.map_replicate]
+
+end Fit
